@@ -157,41 +157,35 @@ Proof.
 Qed.
 
 (** no exact size: the packet is header + frames + tag; the datagram is extended with bytes
-    OUTSIDE the packet up to UDPDatagramMinSize (default 1200) *)
+    OUTSIDE the packet up to UDPDatagramMinSize (default 1200), never past the packet buffer *)
 Lemma append_udp_min cl hdr pnLen plen udpMin :
   hdr + plen + overhead <= bufCap ->
-  let mn := if udpMin =? 0 then dfltUDPMin else udpMin in
-  exists rp,
-    appendInitial (cl, 0) hdr pnLen plen udpMin
-    = AppOk (pnLen + plen + overhead) (hdr + plen + overhead) (Z.max (hdr + plen + overhead) mn) rp /\
-    (rp = true <-> hdr + plen + overhead < mn /\ bufCap < mn).
+  let mn := Z.min (if udpMin =? 0 then dfltUDPMin else udpMin) bufCap in
+  appendInitial (cl, 0) hdr pnLen plen udpMin
+  = AppOk (pnLen + plen + overhead) (hdr + plen + overhead) (Z.max (hdr + plen + overhead) mn) false.
 Proof.
   intros Hcap mn. unfold appendInitial, paddedLen. cbn [snd Z.gtb Z.compare Z.eqb]. fold mn.
   destruct (Z.gtb_spec (hdr + plen + overhead) bufCap); [lia|].
-  destruct (Z.ltb_spec (hdr + plen + overhead) mn) as [Hlt|Hge].
-  - exists (mn >? bufCap). split; [f_equal; lia|]. destruct (Z.gtb_spec mn bufCap); split; intros; try lia; try congruence; tauto.
-  - exists false. split; [f_equal; lia|]. split; [congruence|lia].
+  destruct (Z.ltb_spec (hdr + plen + overhead) mn) as [Hlt|Hge]; f_equal; lia.
 Qed.
 
-(** output never exceeds the packet buffer, or an error is returned *)
+(** output never exceeds the packet buffer, or an error is returned; releasing the buffer
+    never panics *)
 Lemma append_fits_or_error plan hdr pnLen plen udpMin :
   match appendInitial plan hdr pnLen plen udpMin with
   | AppErr => hdr + paddedLen (snd plan) hdr plen + overhead > bufCap
   | AppOk lf pl dl rp =>
     pl <= bufCap /\ pl = hdr + paddedLen (snd plan) hdr plen + overhead /\
     lf = pnLen + paddedLen (snd plan) hdr plen + overhead /\
-    pl <= dl /\ (rp = false -> dl <= bufCap)
+    pl <= dl /\ dl <= bufCap /\ rp = false
   end.
 Proof.
   unfold appendInitial. set (p' := paddedLen (snd plan) hdr plen).
-  set (mn := if udpMin =? 0 then dfltUDPMin else udpMin).
+  set (mn := Z.min (if udpMin =? 0 then dfltUDPMin else udpMin) bufCap).
   destruct (Z.gtb_spec (hdr + p' + overhead) bufCap) as [Hg|Hg]; [lia|].
   destruct (Z.eqb_spec (snd plan) 0) as [E|E].
-  - destruct (Z.ltb_spec (hdr + p' + overhead) mn) as [Hl|Hl].
-    + split; [lia|]. split; [lia|]. split; [lia|]. split; [lia|].
-      intros Hrp. destruct (Z.gtb_spec mn bufCap); [discriminate|lia].
-    + split; [lia|]. split; [lia|]. split; [lia|]. split; lia.
-  - split; [lia|]. split; [lia|]. split; [lia|]. split; lia.
+  - destruct (Z.ltb_spec (hdr + p' + overhead) mn) as [Hl|Hl]; repeat split; lia.
+  - repeat split; lia.
 Qed.
 
 Lemma paddedLen_ge ps hdr plen : plen <= paddedLen ps hdr plen.
@@ -217,7 +211,7 @@ Proof.
   - (match type of H with (if ?b then _ else _) = _ => destruct b; [discriminate|] end).
     destruct (Z.eqb_spec (snd plan) 0) as [E|E].
     + specialize (Hmin E).
-      destruct (Z.ltb_spec (hdr + plen + overhead) (if udpMin =? 0 then dfltUDPMin else udpMin));
+      destruct (Z.ltb_spec (hdr + plen + overhead) (Z.min (if udpMin =? 0 then dfltUDPMin else udpMin) bufCap));
         inversion H; subst; lia.
     + inversion H; subst; lia.
 Qed.
@@ -248,9 +242,10 @@ Lemma le_max_udpmin_witness :
   appendInitial (0, 0) 22 1 516 1357 = AppOk 533 554 1357 false.
 Proof. vm_compute. reflexivity. Qed.
 
-(** UDPDatagramMinSize above the pooled buffer: append() reallocates, Release() panics *)
-Lemma release_panic_witness :
-  appendInitial (0, 0) 19 1 504 1500 = AppOk 521 539 1500 true.
+(** regression (was: append() past the pooled buffer, Release() panicked): UDPDatagramMinSize
+    above the buffer is refused by dial; in the packer the padding stops at the buffer's end *)
+Lemma release_panic_regression :
+  appendInitial (0, 0) 19 1 504 1500 = AppOk 521 539 1452 false.
 Proof. vm_compute. reflexivity. Qed.
 
 (** packet-number length list with InitPacketNumber = 2^64-1: the base is -1, so packet 0
@@ -264,3 +259,63 @@ Proof. vm_compute. reflexivity. Qed.
 Lemma pn_len_list_witness2 :
   peekPnLen [1; 2; 3] 0 (pnBase two62) (initialPN two62 + 1) = 1.
 Proof. vm_compute. reflexivity. Qed.
+
+(** * InitialPacketSpec.validate *)
+
+Lemma validateSpec_spec scid dcid ipn lens single udpMin plans maxPacket :
+  validateSpec scid dcid ipn lens single udpMin plans maxPacket = true ->
+  0 <= scid <= 20 /\ (dcid = 0 \/ 8 <= dcid <= 20) /\
+  ipn <= two62 - 1 /\ ipn < 2 ^ (8 * firstPnLen lens single ipn) /\
+  Forall (fun l => 1 <= l <= 4) lens /\ single <= 4 /\
+  (udpMin = 0 \/ 1200 <= udpMin <= 1452) /\
+  Forall (fun p => 0 <= fst p /\ (snd p = 0 \/ 1200 <= snd p <= maxPacket)) plans.
+Proof.
+  unfold validateSpec. intros H.
+  apply andb_prop in H as [H Hplans]. apply andb_prop in H as [H Hudp].
+  apply andb_prop in H as [H Hfit]. apply andb_prop in H as [H Hsingle].
+  apply andb_prop in H as [H Hlens]. apply andb_prop in H as [H Hipn].
+  apply andb_prop in H as [H Hdcid]. apply andb_prop in H as [Hs0 Hs1].
+  unfold upMaxConnIDLen, upMinConnectionIDLenInitial, upMinInitialPacketSize, bufCap, upMaxPacketBufferSize in *.
+  split; [lia|]. split.
+  { apply Bool.orb_prop in Hdcid. destruct Hdcid as [E|E]; [left; lia|right]. apply andb_prop in E. lia. }
+  split; [lia|]. split; [lia|]. split.
+  { rewrite forallb_forall in Hlens. apply Forall_forall. intros l Hl. specialize (Hlens l Hl). unfold validPnLen in Hlens.
+    apply andb_prop in Hlens. lia. }
+  split; [lia|]. split.
+  { apply Bool.orb_prop in Hudp. destruct Hudp as [E|E]; [left; lia|right]. apply andb_prop in E. lia. }
+  rewrite forallb_forall in Hplans. apply Forall_forall. intros p Hp. specialize (Hplans p Hp). unfold validPlan in Hplans.
+  apply andb_prop in Hplans. destruct Hplans as [Hf Hs]. split; [lia|].
+  apply Bool.orb_prop in Hs. destruct Hs as [E|E]; [left; lia|right]. apply andb_prop in E. unfold upMinInitialPacketSize in E. lia.
+Qed.
+
+(** the first packet number of an accepted spec is InitPacketNumber itself and the list is
+    indexed from it *)
+Lemma validateSpec_pn scid dcid ipn lens single udpMin plans maxPacket :
+  0 <= ipn -> validateSpec scid dcid ipn lens single udpMin plans maxPacket = true ->
+  initialPN ipn = ipn /\ pnBase ipn = ipn /\
+  peekPnLen lens single (pnBase ipn) (initialPN ipn) = firstPnLen lens single ipn.
+Proof.
+  intros H0 H. apply validateSpec_spec in H. destruct H as (_ & _ & Hi & _).
+  destruct (initialPN_spec ipn) as [Hs _]; [unfold two62, two64 in *; lia|].
+  rewrite Hs by lia. rewrite pnBase_small by lia. repeat split.
+  unfold peekPnLen, firstPnLen. destruct lens as [|l0 lr].
+  - rewrite Hs by lia. reflexivity.
+  - replace (ipn - ipn) with 0 by lia.
+    rewrite wrap64_small by (unfold two63; lia). cbn [Z.ltb Z.compare].
+    set (L := l0 :: lr). assert (HL : (0 < length L)%nat) by (unfold L; simpl; lia).
+    destruct (Z.geb_spec 0 (Z.of_nat (length L))); [lia|]. reflexivity.
+Qed.
+
+(** what dial refuses: the witnesses of the former findings *)
+Lemma validate_rejects :
+  validateSpec 0 8 two62 [1; 2; 3] 0 0 [] 1280 = false /\            (* InitPacketNumber 2^62 *)
+  validateSpec 0 8 (two64 - 1) [1; 2; 3] 0 0 [] 1280 = false /\      (* InitPacketNumber 2^64-1 *)
+  validateSpec 0 8 300 [] 1 0 [] 1280 = false /\                     (* 300 in one byte *)
+  validateSpec 0 8 (two62 - 1) [4] 0 0 [] 1280 = false /\            (* 2^62-1: the next number would be 2^62 *)
+  validateSpec 0 4 1 [] 1 0 [] 1280 = false /\                       (* DestConnIDLength 4 *)
+  validateSpec 0 8 1 [] 1 600 [] 1280 = false /\                     (* UDPDatagramMinSize 600 *)
+  validateSpec 0 8 1 [] 1 1500 [] 1280 = false /\                    (* UDPDatagramMinSize 1500 *)
+  validateSpec 0 8 1 [] 1 0 [(0, 1400)] 1280 = false /\              (* PacketSize 1400 on a 1280 connection *)
+  validateSpec 0 8 1 [1; 2] 0 0 [(999, 1200); (0, 1200)] 1280 = true /\  (* Chrome_146 with a plan *)
+  validateSpec 3 8 0 [] 1 1357 [] 1280 = true.                        (* Firefox_116A *)
+Proof. vm_compute. repeat split; reflexivity. Qed.
